@@ -100,25 +100,15 @@ Alloc(pid, d, ps) ==
   /\ UNCHANGED <<devs, held, devUsed, crashed>>
 
 (* Buddy allocator, as implemented: its free lists can contain a block that overlaps pages still handed out
-   (Buddy.tla, MC_Buddy_impl.cfg), so an allocation obtains a page that is live.  The history ends here: the
-   set abstraction of the free structure no longer describes the implementation. *)
-AllocAliased(pid, d, ps) ==
-  LET n == Len(ps)  v == NextV(pid)
-      newKeys == {<<pid, v + i - 1>> : i \in 1..n} IN
-  /\ ~crashed /\ n >= 1 /\ d \in DevIds
-  /\ "BuddyCorruptsFreeLists" \in Deviations
-  /\ \A i \in 1..n : OnAny(ps[i], Targets(d))
-  /\ (\E i \in 1..n : ps[i] \in out) \/ ~Injective(ps)      \* a live page, or the same page twice in one call
-  /\ newKeys \cap DOMAIN pt = {}
-  /\ pt' = [k \in DOMAIN pt \cup newKeys |->
-              IF k \in newKeys THEN [ppn |-> ps[k[2] - v + 1], dev |-> DevOfPage(ps[k[2] - v + 1]), mig |-> FALSE]
-              ELSE pt[k]]
-  /\ out' = out \cup Range(ps) /\ limbo' = limbo \ Range(ps)
-  /\ nextV' = [p \in DOMAIN nextV \cup {pid} |-> IF p = pid THEN v + n ELSE nextV[p]]
-  /\ vown' = [w \in DOMAIN vown \cup {k[2] : k \in newKeys} |-> IF <<pid, w>> \in newKeys THEN pid ELSE vown[w]]
-  /\ bufs' = Append(bufs, [pid |-> pid, v |-> v, n |-> n, live |-> TRUE])
-  /\ devUsed' = devUsed \cup {"BuddyCorruptsFreeLists"} /\ crashed' = TRUE
-  /\ UNCHANGED <<devs, held>>
+   (Buddy.tla, MC_Buddy_impl.cfg), so a call (Allocate, Remap, Distribute, migration) obtains a page that is
+   live, or the same page twice.  t is the resulting page table.  The history ends here: the set abstraction of
+   the free structure no longer describes the implementation. *)
+AliasedEnd(t) ==
+  /\ ~crashed /\ "BuddyCorruptsFreeLists" \in Deviations
+  /\ \/ \E k1, k2 \in DOMAIN t : k1 # k2 /\ t[k1].ppn = t[k2].ppn
+     \/ \E k \in DOMAIN t : t[k].ppn \in held
+  /\ pt' = t /\ crashed' = TRUE /\ devUsed' = devUsed \cup {"BuddyCorruptsFreeLists"}
+  /\ UNCHANGED <<devs, out, limbo, nextV, vown, bufs, held>>
 
 (* FreeMemory: Driver.FreeMemory -> memoryAllocatorImpl.Free -> removePage.  b indexes bufs. *)
 FreeOwner(pid, b, dv) == IF "MirrorKeyedByVAddrOnly" \in dv THEN VOwn(bufs[b].v) ELSE pid
